@@ -98,6 +98,16 @@ func evoContainers(id string, e *schema.Record) []*schema.Case {
 	out = append(out, mk("DAA", &schema.Record{Kind: schema.Struct, Fields: []schema.Field{{Name: "xs", Type: schema.A(schema.A(sfT))}, after}}))
 	out = append(out, mk("DPA", &schema.Record{Kind: schema.Struct, Fields: []schema.Field{{Name: "inner", Type: schema.A(schema.R(ar))}, after}}))
 	out = append(out, mk("D3", &schema.Record{Kind: schema.Struct, Fields: []schema.Field{{Name: "inner", Type: schema.A(schema.R(dp))}, {Name: "one", Type: schema.R(dp)}, after}}))
+	// holders that reach the evolved message only through nested containers (map of arrays, array of maps, map of maps)
+	hma := mk("HMA", &schema.Record{Kind: schema.Struct, Fields: []schema.Field{{Name: "mm", Type: schema.M("string", schema.A(et))}, after}})
+	ham := mk("HAM", &schema.Record{Kind: schema.Struct, Fields: []schema.Field{{Name: "am", Type: schema.A(schema.M("uint32", et))}, after}})
+	hmm := mk("HMM", &schema.Record{Kind: schema.Struct, Fields: []schema.Field{{Name: "mm", Type: schema.M("string", schema.M("uint32", et))}, after}})
+	out = append(out, hma, ham, hmm)
+	for _, h := range []*schema.Case{hma, ham, hmm} {
+		ctx := strings.TrimPrefix(h.Rec.Name, id)
+		out = append(out, mk("N"+ctx+"A", &schema.Record{Kind: schema.Struct, Fields: []schema.Field{{Name: "hs", Type: schema.A(schema.R(h.Rec))}, after}}))
+		out = append(out, mk("N"+ctx+"F", &schema.Record{Kind: schema.Message, Fields: []schema.Field{{Name: "h", Index: 1, Type: schema.R(h.Rec)}, {Name: "after", Index: 2, Type: schema.P("int32")}}}))
+	}
 	// a holder struct DECLARED as a union branch and reused by name as a field type elsewhere
 	bh := &schema.Record{Kind: schema.Struct, Inline: true, Name: id + "BH", Fields: []schema.Field{{Name: "m", Type: et}, after}}
 	bo := &schema.Record{Kind: schema.Struct, Inline: true, Name: id + "BO", Fields: []schema.Field{{Name: "v", Type: schema.P("int32")}}}
